@@ -13,7 +13,7 @@ HERE = os.path.dirname(os.path.abspath(__file__))
 CASES = {'quick': 12000, 'thorough': 300000}
 PARALLEL = True
 PROOF_TIMEOUT = 1500
-RULE = ('random action programs: include tree <= 6 nodes, <= 12 actions incl. re-entrantly declared ones (depth <= 2), '
+RULE = ('random action programs: include tree <= 6 nodes (names also textually related: one name extending another, elements containing / : , or space), <= 12 actions incl. re-entrantly declared ones (depth <= 2), '
         'histories of up to 3 commits on ONE ActionState/Configurator; repeated (equal) plain-None declarations; callables of 8 kinds '
         '(closure, falsy callable list / __bool__ False / __len__ 0 objects, partial, bound method, no callable, raising) receiving args/kw they check; '
         'in direct mode declared through ActionState.action (with and without its defaults), old-style tuples of 6/7/8 positions or ready-made dicts '
@@ -353,6 +353,21 @@ def gen_case(rng, small=False):
         parent = rng.randrange(0, k)
         spec = 's%d' % k if mode == 'include' or rng.random() < 0.7 else rng.choice(['a', 'b', 's1'])
         nodes.append([parent, spec])
+    # include names that are TEXTUALLY related although the chains are not: a sibling's name extended by a character
+    # (s1 / s1x, api / api_v2), and -- in direct mode, where chains are arbitrary tuples of strings -- an element that
+    # contains the characters a maintainer might join chains with ('a/b' vs the chain a, b; 'a:b'; 'a b')
+    if nn >= 2 and rng.random() < 0.35:
+        k = rng.randrange(0, nn)
+        j = rng.choice([x for x in range(nn) if x != k])
+        cand = nodes[j][1] + rng.choice(['x', '0', '2', '_v2'] if mode == 'direct' else ['x', '0', '2'])
+        if cand not in [sp for _, sp in nodes]:
+            nodes[k][1] = cand
+    if mode == 'direct' and nn >= 2 and rng.random() < 0.2:
+        k = rng.randrange(0, nn)
+        others = [sp for i, (_, sp) in enumerate(nodes) if i != k]
+        cand = rng.choice(others) + rng.choice(['/', ':', ' ', ',']) + rng.choice(others)
+        if len(cand) <= 12:
+            nodes[k][1] = cand
     ndisc = rng.choice([1, 1, 2, 2, 3, 4])
     palette = rng.sample(PHASES, rng.choice([1, 1, 2, 2, 3]))
     structured = rng.random() < 0.75
@@ -527,6 +542,16 @@ SEEDS += [
 ]
 
 
+SEEDS += [
+    # chains that are unrelated although their TEXT is related: sibling includes s1 / s1x, and a one-element chain whose
+    # element reads like a two-element chain
+    {'mode': 'include', 'nodes': [[0, 's1'], [0, 's1x']], 'actions': [A(0, 1, 1, 0), A(1, 1, 2, 0)]},
+    {'mode': 'direct', 'nodes': [[0, 'a'], [0, 'a_v2'], [2, 'b']], 'actions': [A(0, 1, 1, 0), A(1, 1, 3, 0), A(2, 2, 0, 0)]},
+    {'mode': 'direct', 'nodes': [[0, 'a'], [0, 'a0']], 'actions': [A(0, 1, 1, -10), A(1, 1, 2, 0)]},
+    {'mode': 'direct', 'nodes': [[0, 'a'], [1, 'b'], [0, 'a/b'], [3, 'c']], 'actions': [A(0, 1, 2, 0), A(1, 1, 4, 0)]},
+]
+
+
 def _walk(acts):
     for a in acts:
         yield a
@@ -554,7 +579,8 @@ def valid(case):
             return False
         nn = len(case['nodes'])
         for k, (p, s) in enumerate(case['nodes'], start=1):
-            if not (isinstance(p, int) and 0 <= p < k and isinstance(s, str) and re.fullmatch(r'[a-z][a-z0-9]{0,3}', s)):
+            pat = r'[a-z][a-z0-9]{0,7}' if case['mode'] == 'include' else r'[a-z][a-z0-9_/:, ]{0,11}'
+            if not (isinstance(p, int) and 0 <= p < k and isinstance(s, str) and re.fullmatch(pat, s)):
                 return False
         if case['mode'] == 'include' and len({s for _, s in case['nodes']}) != nn:
             return False
@@ -1130,6 +1156,11 @@ def kinds(case, obs):
         k.append('callable-partial-or-method')
     if 6 in cks:
         k.append('callable-none')
+    specs = [sp for _, sp in case['nodes']]
+    if any(a != b and b.startswith(a) for a in specs for b in specs):
+        k.append('include-names-share-a-textual-prefix')
+    if any(ch in sp for sp in specs for ch in '/:, '):
+        k.append('include-name-contains-a-separator')
     if 7 in cks:
         k.append('callable-raises')
         if any(o and o[0] == 'EXC' and o[1] == 'ConfigurationExecutionError' for o in [out] + [o for o, _ in obs[2]]):
@@ -1172,6 +1203,15 @@ def targeted(broken, disagreements, rng):
             acts = [A(i, d, nd, o) for i, (d, nd, o) in enumerate(combo)]
             acts[-1] = dict(acts[-1], adds=[A(3, child[0], child[1], child[2])])
             out.append({'mode': 'direct', 'nodes': nodes, 'actions': acts})
+    # the same small scope on trees whose include names are textually related (a / ab; a, b / 'a/b')
+    for nodes2 in ([[0, 'a'], [0, 'ab']], [[0, 'a'], [1, 'b'], [0, 'a/b']]):
+        nn2 = len(nodes2)
+        opts2 = [(d, n, o) for d in (None, 1) for n in range(nn2 + 1) for o in (0, 5)]
+        for combo in itertools.product(opts2, repeat=2):
+            out.append({'mode': 'direct', 'nodes': nodes2, 'actions': [A(i, d, nd, o) for i, (d, nd, o) in enumerate(combo)]})
+            if nn2 == 2:
+                out.append({'mode': 'include', 'nodes': [[0, 's1'], [0, 's1x']],
+                            'actions': [A(i, d, nd, o) for i, (d, nd, o) in enumerate(combo)]})
     rest = out[len(SEEDS):]
     rng.shuffle(rest)
     return out[:len(SEEDS)] + rest[:12000]
